@@ -432,6 +432,10 @@ def _dim_role(e: ast.AST, defs, depth=0) -> str:
             roles.add(_dim_role(d, defs, depth + 1))
         if len(roles) == 1:
             return roles.pop()
+        # several definitions: the one that reaches this use in straight-line order (the closest one above it)
+        before = [d for d in ds if getattr(d, "lineno", 0) and getattr(e, "lineno", 0) and d.lineno < e.lineno]
+        if before:
+            return _dim_role(max(before, key=lambda d: d.lineno), defs, depth + 1)
         # tuple unpacking  nr, ncols = B.shape[-2:]  /  nr, ncols = A.shape[-1], B.shape[-1]
         return "?"
     return "?"
